@@ -40,13 +40,16 @@ func (l *UnwrapAggPlanner) addValue(ctx *shared.PlannerContext, entry *shared.Lo
 			stream.values[idx+1] = 1
 		}
 	case "first_over_time":
-		if stream.values[idx] == 0 {
+		// values[idx+1] (> 0 marks the bucket as filled) holds the timestamp of the kept sample
+		if stream.values[idx+1] == 0 || float64(entry.TimestampNS) < stream.values[idx+1] {
 			stream.values[idx] = entry.Value
-			stream.values[idx+1] = 1
+			stream.values[idx+1] = float64(entry.TimestampNS)
 		}
 	case "last_over_time":
-		stream.values[idx] = entry.Value
-		stream.values[idx+1] = 1
+		if stream.values[idx+1] == 0 || float64(entry.TimestampNS) >= stream.values[idx+1] {
+			stream.values[idx] = entry.Value
+			stream.values[idx+1] = float64(entry.TimestampNS)
+		}
 	}
 }
 
